@@ -1,7 +1,7 @@
 (* Pixels/Corr.v -- glue of the C07 / C17 correspondence checks: the image generator mirrored in
    harness/vh/pixels_common.py, a table-driven instance of PIL's [convert], canonical forms and
    digests of the model's outputs. *)
-From PsdV Require Import Base.Prelude Pixels.Model.
+From PsdV Require Import Base.Prelude Pixels.F32 Pixels.Model.
 From Coq Require Import Uint63.
 Open Scope Z_scope.
 
@@ -48,9 +48,14 @@ Definition canon_raster (r : raster) : list Z :=
 Definition canon_res {A} (f : A -> list Z) (r : res A) : list Z :=
   match r with Ok a => 0 :: f a | Err e => [err_code e] end.
 Definition OFF := 1000000.
+Definition canon_chans (chs : list (Z * list Z)) : list Z :=
+  flat_map (fun c => (fst c + 2) :: zlen (snd c) :: snd c) chs.
 Definition canon_layer (l : layer) : list Z :=
+  [l_top l + OFF; l_left l + OFF; l_bottom l + OFF; l_right l + OFF; zlen (l_chans l)] ++ canon_chans (l_chans l).
+(* the record with the channel bytes as they are stored for a document of [depth] *)
+Definition canon_layer_stored (c : cfg) (depth : Z) (l : layer) : list Z :=
   [l_top l + OFF; l_left l + OFF; l_bottom l + OFF; l_right l + OFF; zlen (l_chans l)] ++
-  flat_map (fun c => (fst c + 2) :: zlen (snd c) :: snd c) (l_chans l).
+  canon_chans (layer_stored c depth l).
 Definition canon_header (hd : header) : list Z :=
   [cmode_code (h_cm hd); h_channels hd; h_w hd; h_h hd; h_depth hd].
 Definition dg (l : list Z) : Z := to_Z (h63_list 0%uint63 l).
@@ -59,20 +64,20 @@ Definition canon_opt_plane (o : option plane) : list Z :=
   match o with None => [0] | Some p => 1 :: zlen p :: p end.
 
 Definition cfg_of_bits (b : Z) : cfg :=
-  mkCfg (Z.testbit b 0) (Z.testbit b 1) (Z.testbit b 2) (Z.testbit b 3) (Z.testbit b 4).
+  mkCfg (Z.testbit b 0) (Z.testbit b 1) (Z.testbit b 2) (Z.testbit b 3) (Z.testbit b 4) (Z.testbit b 5).
 
 (* ------------------------------------------------------------------ stream "layer" (C07) *)
 Record layer_case := mkLC {
   lc_cfg : Z; lc_docpm : Z (* -1: no document *); lc_cm : Z;
   lc_mode : Z; lc_w : Z; lc_h : Z; lc_seed : Z; lc_step : Z; lc_astyle : Z;
-  lc_top : Z; lc_left : Z; lc_export : bool; lc_tab : list (Z * list plane) }.
+  lc_top : Z; lc_left : Z; lc_export : bool; lc_depth : Z; lc_tab : list (Z * list plane) }.
 
 Definition layer_digests (k : layer_case) : list Z :=
   let img := gen_raster (mode_of_code (lc_mode k)) (lc_w k) (lc_h k) (lc_seed k) (lc_step k) (lc_astyle k) in
   let pm := if lc_docpm k <? 0 then None else Some (mode_of_code (lc_docpm k)) in
   let cm := cmode_of_code (lc_cm k) in
   let l := layer_frompil (conv_tab (lc_tab k)) (cfg_of_bits (lc_cfg k)) pm img (lc_top k) (lc_left k) in
-  [ dg (canon_layer l);
+  [ dg (canon_layer_stored (cfg_of_bits (lc_cfg k)) (lc_depth k) l);
     if lc_export k then
       dg (canon_res (fun o => match o with None => [0] | Some r => 1 :: canon_raster r end) (layer_topil cm l))
     else 0;
@@ -154,3 +159,5 @@ Definition session_digests (k : session_case) : list Z :=
               [ dg (canon_res canon_planes (do st <- r; get_data st hd));
                 match r with Ok st => (match i_comp st with RAW => zlen (i_vis st) | _ => 0 end) | Err _ => 0 end ])
            (session (cfg_of_bits (ss_cfg k)) hd (false, old) (map step_of (ss_steps k))).
+
+Definition f32_table_digest : Z := dg (concat f32_table).
